@@ -196,7 +196,24 @@ func genDisp(r *Rng) Sx {
 			}
 		}
 	}
-	cfg := L(t.Sx(), fscriptsSx(cf), sf, rf, hs, B(r.Pct(55)), B(r.Pct(60)), actionsSx(recoverScript), r.Intn(2), []int{0, 1, 2, 8}[r.Intn(4)], condPanic)
+	// plain http handlers registered with Handle / HandleWithFilter (reached through ServeHTTP only)
+	plain := Ls{}
+	plainPaths := []string{}
+	if r.Pct(30) {
+		for k := 0; k < 1+r.Intn(2); k++ {
+			pth := "/plain-" + itoa(k)
+			acts := []Action{}
+			for _, a := range genActions(r, 1+r.Intn(3), panicPct) {
+				if a.Kind <= 2 || a.Kind == 5 {
+					acts = append(acts, a)
+				}
+			}
+			plain = append(plain, L(A(pth), B(r.Bool()), actionsSx(acts)))
+			plainPaths = append(plainPaths, pth)
+		}
+	}
+	cfg := L(t.Sx(), fscriptsSx(cf), sf, rf, hs, B(r.Pct(55)), B(r.Pct(60)), actionsSx(recoverScript), r.Intn(2), []int{0, 1, 2, 8}[r.Intn(4)], condPanic,
+		plain, B(r.Pct(30)))
 	n := 1 + r.Intn(4)
 	if r.Pct(10) || forceConc {
 		n = 5 + r.Intn(12)
@@ -218,7 +235,11 @@ func genDisp(r *Rng) Sx {
 		if r.Pct(8) {
 			preset = r.Pick([]string{"br", "gzip", "identity"})
 		}
-		hist = append(hist, L(r.Intn(2), q.Sx(), A(preset)))
+		entry := r.Intn(2)
+		if len(plainPaths) > 0 && r.Pct(35) {
+			q.Path, q.Method, entry = r.Pick(plainPaths), "GET", 1
+		}
+		hist = append(hist, L(entry, q.Sx(), A(preset)))
 	}
 	mode := 0
 	if r.Pct(25) || forceConc {
@@ -422,6 +443,15 @@ func buildDisp(cfg Sx, env *dispEnv) *restful.Container {
 		rp := restful.NewResponse(w)
 		runActions(rscript, restful.NewRequest(&http.Request{Header: http.Header{}}), rp, lg)
 	})
+	for _, ph := range sxList(sxNth(cfg, 11)) {
+		acts := actionsFromSx(sxNth(ph, 2))
+		h := http.HandlerFunc(func(w http.ResponseWriter, r *http.Request) { runHTTPActions(acts, w) })
+		if sxBool(sxNth(ph, 1)) {
+			c.HandleWithFilter(sxStr(sxNth(ph, 0)), h)
+		} else {
+			c.Handle(sxStr(sxNth(ph, 0)), h)
+		}
+	}
 	for _, sv := range t.Services {
 		ws := new(restful.WebService)
 		ws.Path(sv.Root)
@@ -574,6 +604,10 @@ func runDisp(raw Sx) (Sx, Sx) {
 	old := restful.CurrentCompressorProvider()
 	restful.SetCompressorProvider(ld)
 	defer restful.SetCompressorProvider(old)
+	if sxBool(sxNth(cfg, 12)) {
+		restful.EnableTracing(true) // trace logging on (to a discarding logger): must not change any answer
+		defer restful.EnableTracing(false)
+	}
 
 	// (1) the history, sequentially, on one container
 	env := newEnv(len(hist))
